@@ -279,8 +279,12 @@ def run(res, tier):
                    % ((early[0].get('q') or '').split('::')[-1] if early else ''))
     fie = [g for g in fx.funcs.values() if g.full and g.q.endswith('Thread::InternalThreadEntryAux')]
     if fie:
-        so = [c for c in fie[0].walk() if c.is_call() and (c.get('q') or '').endswith('Thread::SignalOwner')]
-        under = any(any(A.emptiness(cn, t) is not None and A.emptiness(cn, t)[1] is False for (cn, t) in G.atoms_at(fie[0], c)) for c in so)
+        from msa import ip as IP
+        so, under = [], False
+        for g_ in IP.scope(fx, fie[0], r'^muscle::Thread::(?!InternalThreadEntry$|SignalOwner$|SignalAux$)'):       # the start-up block may have been extracted into a private helper
+            so_g = [c for c in g_.walk() if c.is_call() and (c.get('q') or '').endswith('Thread::SignalOwner')]
+            so += so_g
+            under = under or any(any(A.emptiness(cn, t) is not None and A.emptiness(cn, t)[1] is False for (cn, t) in G.atoms_at(g_, c)) for c in so_g)
         res.ob('SEND-ORDER', fie[0].where(so[0]) if so else fie[0].where(), 'the new thread announces replies that were queued before it started', bool(so) and under, function=fie[0].q,
                key='SEND-ORDER|%s|announce-queued-replies' % fie[0].q,
                message='InternalThreadEntryAux no longer signals the owner when the reply queue already holds Messages at start-up (queued in advance, or left over from before a restart): the owner, '
